@@ -17,7 +17,7 @@ import time
 
 
 def analyse(mods, item, shared_loader, clock_offset):
-  io, config, load_pytd, serialize_ast, pickle_utils = mods
+  io, config, load_pytd, serialize_ast, pickle_utils, pytd_utils = mods
   opts = config.Options.create("prog.py", python_version=(3, 12), module_name="prog")
   if item.get("loader") == "shared":
     loader = shared_loader[0]
@@ -33,6 +33,14 @@ def analyse(mods, item, shared_loader, clock_offset):
     return rec
   rec["outcome"] = "ok"
   rec["pyi"] = pyi
+  try:
+    # the pipeline model says: emitted ast = canon(optimised ast); hence it is a fixpoint of canon (canon_idem)
+    canon = pytd_utils.CanonicalOrdering(ret.ast)
+    r_ast = repr(ret.ast)
+    rec["canonical"] = (pytd_utils.Print(canon) == pytd_utils.Print(ret.ast)
+                        and (repr(canon) == r_ast or "_name2item={'" in r_ast))   # lookup caches are not content
+  except Exception as e:  # pylint: disable=broad-except
+    rec["canonical"] = "EXC %s" % type(e).__name__
   errs = []
   for e in ret.context.errorlog.unique_sorted_errors():
     errs.append([e.name, e.line, e.message, e.filename or "", e._col, e.methodname or ""])  # pylint: disable=protected-access
@@ -70,8 +78,9 @@ def main():
   from pytype import io
   from pytype import load_pytd
   from pytype.imports import pickle_utils
+  from pytype.pytd import pytd_utils
   from pytype.pytd import serialize_ast
-  mods = (io, config, load_pytd, serialize_ast, pickle_utils)
+  mods = (io, config, load_pytd, serialize_ast, pickle_utils, pytd_utils)
   shared = [None]
   out = []
   for item in job["items"]:
